@@ -541,6 +541,9 @@ static void check_traj(traj_t *t, double ts, double const *b0, double const *b1,
 static double gen_ts(vf_rng *r)
 {
     if (vf_chance(r, 1, 4)) { return ldexp(1.0, (int)vf_range(r, -13, 13)); }
+    /* "all positive durations over many orders of magnitude": one draw in five uses the wide range over which
+       ts^-7 * |data| (septic) still stays finite; the end-condition bound C*eps*S scales with ts by construction */
+    if (vf_chance(r, 1, 5)) { return vf_logu(r, getenv("VF_TSLO") ? atof(getenv("VF_TSLO")) : -38, getenv("VF_TSHI") ? atof(getenv("VF_TSHI")) : 38); }
     return vf_logu(r, -4, 4);
 }
 static double gen_val(vf_rng *r) { return vf_sign(r) * vf_logu(r, -3, 3); }
